@@ -212,6 +212,40 @@ fn registry() -> Vec<RegOp> {
         ),
         sel_op("Select(&Random) via &S", Random),
     ];
+    // a selection that FAILS (a result is missing / the tournament is larger than the population), then an
+    // ordinary selection with the same selector value on the same thread: an error path must leave nothing behind
+    v.push(RegOp {
+        name: "Lexicase(3): failed selection, then a selection",
+        f: {
+            let l = Lexicase::new(3);
+            Box::new(move |seed, rng| {
+                let pop = make_pop(seed);
+                // ragged: the second individual has no results at all
+                let mut ragged: Pop = make_pop(seed ^ 0x5a5a);
+                if ragged.len() >= 2 {
+                    let b = Bitstring { bits: Vec::new() };
+                    let r = count_ones(&b);
+                    ragged[1] = EcIndividual::new(b, r);
+                }
+                let first = l.select(&ragged, rng).is_ok();
+                let r = l.select(&pop, rng).map(|x| pop.iter().position(|y| std::ptr::eq(x, y)));
+                format!("{first} {}", show(r))
+            })
+        },
+    });
+    v.push(RegOp {
+        name: "Tournament(3): failed selection, then a selection",
+        f: {
+            let t = Tournament::new(k3);
+            Box::new(move |seed, rng| {
+                let pop = make_pop(seed);
+                let tiny: Pop = make_pop(seed ^ 0xa5a5).into_iter().take(2).collect();
+                let first = t.select(&tiny, rng).is_ok();
+                let r = t.select(&pop, rng).map(|x| pop.iter().position(|y| std::ptr::eq(x, y)));
+                format!("{first} {}", show(r))
+            })
+        },
+    });
     v.push(RegOp {
         name: "DynWeighted (built per call)",
         f: Box::new(move |seed, rng| {
